@@ -1869,6 +1869,8 @@ match_single_regexp (char *str, char *pattern)
     error (regexp_error);
   ret = regexec (reg, str);
   FREE ((char *) reg);
+  if (regexp_too_deep)
+    error (regexp_error);
   return ret;
 }
 
@@ -1901,6 +1903,13 @@ match_regexp (array_t * v, char *pattern, int flag)
         {
           res[size] = 1;
           num_match++;
+        }
+      if (sv1->type == T_STRING && regexp_too_deep)
+        {
+          /* neither a match nor a mismatch: the search was given up */
+          FREE (res);
+          FREE ((char *) reg);
+          error (regexp_error);
         }
     }
 
@@ -2300,7 +2309,23 @@ reg_assoc (char *str, array_t * pat, array_t * tok, svalue_t * def)
 
           for (i = 0; i < size; i++)
             {
-              if (regexec (tmpreg = rgpp[i], tmp))
+              int matched = regexec (tmpreg = rgpp[i], tmp);
+
+              if (regexp_too_deep)
+                {
+                  /* the search was given up: release what has been collected so far */
+                  for (i = 0; i < size; i++)
+                    FREE ((char *) rgpp[i]);
+                  FREE ((char *) rgpp);
+                  while ((rmp = rmph))
+                    {
+                      rmph = rmp->next;
+                      FREE ((char *) rmp);
+                    }
+                  free_empty_array (ret);
+                  error (regexp_error);
+                }
+              if (matched)
                 {
                   currstart = tmpreg->startp[0];
                   if (tmp == currstart)
